@@ -30,6 +30,15 @@ def jobs(tier):
                                assumptions=["cut: move_file_block and write_NC recorders (byte movement: C06.a / C11), ncmpio_fill_vars, "
                                             "ncmpio_free_NC no-ops, header length symbolic",
                                             "the old layout satisfies the create post-condition of C03.c"]))
+    for np_ in ([1, 2] if tier == "quick" else [1, 2, 3, 4]):
+        out.append(Job(oid="C06.a.move_file_block.np%d" % np_, harness="C06/moveblock.c", defines=["-DNPROCS=%d" % np_, "-DVT_MAX=16", "-DVT_NTYPES=2"],
+                       stubs=MPI, includes=["src/drivers/ncmpio/ncmpio_enddef.c"], units=["src/drivers/common/error_mpi2nc.c"], unwind=4, unwindset=["harness.%d:17" % k for k in range(24)],
+                       object_bits=10, timeout=900,
+                       desc="move_file_block for two adjacent ranks of %d: same rounds and collectives on both, chunks adjacent per round, "
+                            "write = read shifted by (to-from) with the length read, rounds from the tail so that no destination overlaps a "
+                            "later source" % np_,
+                       functions=["move_file_block"], bounds="nprocs=%d, nbytes up to two rounds (<= nprocs*64MiB+5000), offsets < 2^40" % np_,
+                       assumptions=STUB_NOTE))
     return out
 
 
@@ -37,7 +46,9 @@ MANIFEST = dict(
     text="The layout-level half of data preservation, decided by CBMC on the real enddef path (ncmpio__enddef, NC_begins, the move "
          "decision block, move_record_vars, move_fixed_vars): from ANY previous layout and ANY redefinition delta within the bound "
          "every old variable and every existing record whose place changes is the source of exactly one block move to its new "
-         "place, moves are ordered so that none overwrites data still to be moved, and nothing moves when the layout is unchanged.",
+         "place, moves are ordered so that none overwrites data still to be moved, and nothing moves when the layout is unchanged. "
+         "The byte-level mover move_file_block is decided by a two-rank self-composition: adjacent chunks per round, write = read "
+         "shifted by (to-from), rounds from the tail.",
     note="Bound: <=3 (4) variables, numrecs<=2, alignments from a fixed set. The byte-level move (move_file_block: per-rank chunking, "
          "rounds, read/write pairing) is checked for error propagation in C11 only; abort semantics (no write on abort of a redef, "
          "delete on abort of a create) and fill of added variables (C16) are not covered by these jobs.")
